@@ -129,4 +129,57 @@ theorem weight_range (q2 : Rat) (order : Int) (hq : 0 ≤ q2) :
       Rat.mul_le_mul_of_nonneg_left (by grind) (Rat.le_of_lt (Rat.inv_pos.mpr hpos))
     grind
 
+/-! ## the cached weight -/
+
+/-- `nd_butterworth_weight` is `lru_cache`d; none of its callers writes into the array it returns
+(no augmented assignment, `out=` or indexed store on the cached value). -/
+theorem cache_not_mutated : Gen.butterworthCacheNotMutated = true := by decide
+
+/-- One call of a memoised function: a hit returns the stored value, a miss stores `f k` and evicts
+down to `maxsize` entries. -/
+def memoCall {κ ν : Type} [DecidableEq κ] (f : κ → ν) (maxsize : Nat) (tbl : List (κ × ν)) (k : κ) :
+    List (κ × ν) × ν :=
+  match tbl.lookup k with
+  | some v => ((k, v) :: tbl.filter (fun p => p.1 ≠ k), v)
+  | none => (((k, f k) :: tbl).take maxsize, f k)
+
+def MemoInv {κ ν : Type} (f : κ → ν) (tbl : List (κ × ν)) : Prop := ∀ p ∈ tbl, p.2 = f p.1
+
+theorem memoCall_spec {κ ν : Type} [DecidableEq κ] (f : κ → ν) (maxsize : Nat) (tbl : List (κ × ν))
+    (k : κ) (h : MemoInv f tbl) :
+    (memoCall f maxsize tbl k).2 = f k ∧ MemoInv f (memoCall f maxsize tbl k).1 := by
+  unfold memoCall
+  split
+  · rename_i v hv
+    have hm : (k, v) ∈ tbl := by
+      have := List.lookup_eq_some_iff.mp hv
+      obtain ⟨l1, l2, rfl, _⟩ := this
+      simp
+    have hv' : v = f k := h _ hm
+    refine ⟨hv', ?_⟩
+    intro p hp
+    rcases List.mem_cons.mp hp with rfl | hp
+    · exact hv'
+    · exact h p (List.mem_filter.mp hp).1
+  · refine ⟨rfl, ?_⟩
+    intro p hp
+    have hp' := List.mem_of_mem_take hp
+    rcases List.mem_cons.mp hp' with rfl | hp'
+    · rfl
+    · exact h p hp'
+
+/-- **Every history**: whatever calls (other shapes, cut-offs, high-pass uses) came before, a call
+returns the weight `f k` itself, provided the stored arrays are never modified (`cache_not_mutated`). -/
+theorem memo_history {κ ν : Type} [DecidableEq κ] (f : κ → ν) (maxsize : Nat) (hist : List κ) (k : κ) :
+    (memoCall f maxsize (hist.foldl (fun t q => (memoCall f maxsize t q).1) []) k).2 = f k := by
+  have hinv : ∀ (t : List (κ × ν)), MemoInv f t →
+      MemoInv f (hist.foldl (fun t q => (memoCall f maxsize t q).1) t) := by
+    induction hist with
+    | nil => intro t ht; simpa using ht
+    | cons q qs ih =>
+      intro t ht
+      simp only [List.foldl_cons]
+      exact ih _ (memoCall_spec f maxsize t q ht).2
+  exact (memoCall_spec f maxsize _ k (hinv [] (by intro p hp; cases hp))).1
+
 end C16
